@@ -378,6 +378,32 @@ def cam(ctx):
             snapshot_defs.append(tuple(d.did for d in fl.reaching(b[g_tpv].id, st)))
         else:
             snapshot_defs.append(None)
+    # the cached report IS the latest report: every store to _current_tpv outside __init__ puts the callback's own argument
+    # (or a plain copy of it) there - nothing derived from the previous cache content - or resets it to None
+    cls_ = ev.cls
+    n_st = 0
+    for m_ in cls_.methods.values():
+        if m_.name == "__init__":
+            continue
+        mfl = ctx.flows.get(m_)
+        for n_ in ast.walk(m_.node):
+            if isinstance(n_, ast.Assign) and dotted(n_.targets[0]) == "self._current_tpv" and id(n_) in mfl.before:
+                n_st += 1
+                v = mfl.expand(n_.value, mfl.before[id(n_)])
+                inner = v
+                if isinstance(v, ast.Call) and (dotted(v.func) in ("dict", "copy.copy", "copy.deepcopy", "deepcopy") and len(v.args) == 1 and not v.keywords):
+                    inner = v.args[0]
+                elif isinstance(v, ast.Call) and isinstance(v.func, ast.Attribute) and v.func.attr == "copy" and not v.args:
+                    inner = v.func.value
+                is_param = isinstance(inner, ast.Name) and inner.id in m_.params[1:]
+                v_none = isinstance(v, ast.Constant) and v.value is None
+                ctx.ob("C10.gdt", m_.short(), f"cache-is-latest-report#{n_st}", is_param or v_none,
+                       "the position cache is replaced by the report just received" if is_param else
+                       ("the position cache is cleared" if v_none else
+                        f"the position cache is set to `{sem.cx(v)[:80]}`, not to the report just received: fields of an OLDER report "
+                        "survive in it and the next CAM does not reflect the latest report"), f"{m_.module.rel}:{n_.lineno}")
+    if n_st == 0:
+        raise AnalysisError("C10: no store to CAMTransmissionManagement._current_tpv found")
     # the report snapshot is read once, under the lock
     ok = len(set(snapshot_defs)) == 1 and snapshot_defs[0] is not None and len(snapshot_defs[0]) == 1
     if ok:
